@@ -143,3 +143,8 @@ def exists(lo, hi, body, name="q"):
     q = fresh(name, I)
     b = body(q)
     return z3.Exists([q], z3.And(integer(lo) <= q, q < integer(hi), boolean(b)))
+
+
+# ground facts about the elementary functions at 0 (trusted, added to every query that mentions them)
+GROUND_FACTS = [sin_f(z3.RealVal(0)) == 0, cos_f(z3.RealVal(0)) == 1, sqrt_f(z3.RealVal(0)) == 0,
+                sqrt_f(z3.RealVal(1)) == 1]
